@@ -603,8 +603,19 @@ class SegmentationImage:
             numbers.
         """
         # child_labels are the deblended labels
-        for parent_label, child_labels in self._deblend_label_map.items():
-            self._deblend_label_map[parent_label] = relabel_map[child_labels]
+        for parent_label, child_labels in list(
+                self._deblend_label_map.items()):
+            new_labels = relabel_map[child_labels]
+            # drop child labels that were removed (mapped to zero) and
+            # duplicates from merged children (keeping the order); a
+            # parent without any remaining child is removed
+            new_labels = new_labels[new_labels != 0]
+            _, idx = np.unique(new_labels, return_index=True)
+            new_labels = new_labels[np.sort(idx)]
+            if len(new_labels) == 0:
+                del self._deblend_label_map[parent_label]
+            else:
+                self._deblend_label_map[parent_label] = new_labels
 
     def reassign_label(self, label, new_label, relabel=False):
         """
